@@ -1,6 +1,9 @@
 package pdfcpu
 
 import (
+	"crypto/x509"
+	"io"
+
 	"github.com/pdfcpu/pdfcpu/internal/zzverif/vp"
 	"github.com/pdfcpu/pdfcpu/pkg/pdfcpu/model"
 	"github.com/pdfcpu/pdfcpu/pkg/pdfcpu/types"
@@ -40,5 +43,71 @@ func VerifRevisionBoundary() {
 	applyHistoricalRevisionReporting(increment, sigType, result)
 	if increment > 0 && sigType != model.SigTypeDTS {
 		vp.Assert(result.DocModified != model.False, "a signature of an earlier revision is reported as covering the unmodified document")
+	}
+}
+
+// ---- the same gate at the caller: validateSignature ----
+
+func verifStubSigHandler(ra io.ReaderAt, sigDict types.Dict, certified, authoritative, all bool, perms int, pool *x509.CertPool,
+	result *model.SignatureValidationResult, ctx *model.Context) error {
+	// the cryptographic verification succeeds: the handler declares the covered bytes unmodified
+	if result.DocModified == model.Unknown {
+		result.DocModified = model.False
+	}
+	result.Reason = model.SignatureReasonDocNotModified
+	return nil
+}
+
+func verifStubSubFilter(sigDict types.Dict, usageRights bool, result *model.SignatureValidationResult) (string, signatureValidationHandler, bool) {
+	n, _ := sigDict["SubFilter"].(types.Name)
+	return string(n), verifStubSigHandler, true
+}
+
+func verifStubDetectPerms(sigDict types.Dict, ctx *model.Context, result *model.SignatureValidationResult) (int, error) {
+	return 0, nil
+}
+
+func verifStubSigDetails(sigDict types.Dict, ctx *model.Context, result *model.SignatureValidationResult) {}
+
+func verifStubCertPool() *x509.CertPool { return nil }
+
+// VerifSignatureRevisionGate (C28): validateSignature with the cryptographic handler replaced by one that
+// always succeeds ("covered bytes unmodified"). For every signature type, sub-filter, increment number,
+// /ByteRange (full 64-bit) and file size, the verdict "document unmodified" survives only if the signed
+// revision is the whole current file (second range ends at the file's end) - whichever of the signature's
+// attributes (type, sub-filter) the two gates consult, they must agree on what a document timestamp is.
+//
+//verif:stub github.com/pdfcpu/pdfcpu/pkg/pdfcpu.signatureSubFilter=verifStubSubFilter
+//verif:stub github.com/pdfcpu/pdfcpu/pkg/pdfcpu.detectPermissions=verifStubDetectPerms
+//verif:stub github.com/pdfcpu/pdfcpu/pkg/pdfcpu.signatureDetails=verifStubSigDetails
+//verif:stub github.com/pdfcpu/pdfcpu/pkg/pdfcpu.userCertificatePool=verifStubCertPool
+func VerifSignatureRevisionGate() {
+	c, d := vp.Int(), vp.Int()
+	fileSize := vp.Int64()
+	increment := vp.IntIn(0, 3)
+	subFilter := []string{"adbe.pkcs7.detached", "ETSI.CAdES.detached", "ETSI.RFC3161", "adbe.x509.rsa_sha1"}[vp.Choice(4)]
+	sigType := vp.Choice(4)
+	sigDict := types.Dict{
+		"ByteRange": types.Array{types.Integer(0), types.Integer(vp.Int()), types.Integer(c), types.Integer(d)},
+		"SubFilter": types.Name(subFilter),
+	}
+	if sigType == model.SigTypeDTS {
+		sigDict["Type"] = types.Name("DocTimeStamp")
+	} else {
+		sigDict["Type"] = types.Name("Sig")
+	}
+	xt := &model.XRefTable{Table: map[int]*model.XRefTableEntry{}}
+	g5, g6 := 0, 0
+	xt.Table[5] = &model.XRefTableEntry{Object: types.Dict{"FT": types.Name("Sig"), "V": *types.NewIndirectRef(6, 0)}, Generation: &g5}
+	xt.Table[6] = &model.XRefTableEntry{Object: sigDict, Generation: &g6}
+	ctx := &model.Context{Configuration: &model.Configuration{}, XRefTable: xt, Read: &model.ReadContext{FileSize: fileSize}}
+	sig := model.Signature{ObjNr: 5, Type: sigType}
+	res, err := validateSignature(sig, ctx, nil, vp.Bool(), vp.Bool(), increment)
+	if err != nil || res == nil {
+		return
+	}
+	wellFormed := c >= 0 && d >= 0 && uint64(c)+uint64(d) <= 1<<63-1 && fileSize >= 0
+	if res.DocModified == model.False && wellFormed {
+		vp.Assert(int64(c)+int64(d) == fileSize, "a signature is reported as covering the unmodified document although its signed revision does not end at the end of the file")
 	}
 }
